@@ -11,6 +11,7 @@ agent's demonstration fails with the change and passes without it.
 import json, os, shutil, subprocess, sys, hashlib
 
 ROOT = os.path.dirname(os.path.dirname(os.path.abspath(__file__)))
+FILE_AS = None
 ENV = dict(os.environ, GOFLAGS="-mod=mod", GOPROXY="off", GOSUMDB="off", GOTOOLCHAIN="local")
 PKGS = "./lib/... ./wallet/... ./client/..."
 
@@ -27,12 +28,19 @@ def test_summary(wt):
 
 def main():
     cid, k = sys.argv[1].lower(), sys.argv[2]
-    src = "/tmp/seed/%s-out" % cid
+    seedroot = "/tmp/seed"
+    if "--root" in sys.argv:
+        seedroot = sys.argv[sys.argv.index("--root") + 1]
+    global FILE_AS
+    FILE_AS = k
+    if "--as" in sys.argv:
+        FILE_AS = sys.argv[sys.argv.index("--as") + 1]
+    src = "%s/%s-out" % (seedroot, cid)
     meta = json.load(open("%s/meta%s.json" % (src, k)))
     patch = "%s/patch%s.diff" % (src, k)
     head = subprocess.check_output(["git", "-C", "/repo", "rev-parse", "HEAD"], text=True).strip()
     os.makedirs("/tmp/confirm", exist_ok=True)
-    wt = "/tmp/confirm/%s-%s" % (cid, k)
+    wt = "/tmp/confirm/%s-%s-%s" % (cid, k, os.path.basename(seedroot))
     subprocess.run(["git", "-C", "/repo", "worktree", "remove", "--force", wt], stdout=subprocess.DEVNULL, stderr=subprocess.DEVNULL)
     subprocess.check_call(["git", "-C", "/repo", "worktree", "add", "-q", "--detach", wt, head])
     res = {"repo_head": head[:10]}
@@ -90,12 +98,14 @@ def finish(cid, k, meta, patch, src, res, ok):
         print("NOT CONFIRMED - not filed")
         return 1
     pid = cid.upper()
+    srck = k
+    k = FILE_AS
     dst = os.path.join(ROOT, "seeded", "%s-%s" % (pid, k))
     shutil.rmtree(dst, ignore_errors=True)
     os.makedirs(dst)
     shutil.copy(patch, os.path.join(dst, "patch.diff"))
-    if os.path.isdir("%s/demo%s" % (src, k)):
-        shutil.copytree("%s/demo%s" % (src, k), os.path.join(dst, "demo"))
+    if os.path.isdir("%s/demo%s" % (src, srck)):
+        shutil.copytree("%s/demo%s" % (src, srck), os.path.join(dst, "demo"))
     check = {}
     if "--no-check" not in sys.argv:
         cmd = [os.path.join(ROOT, "tools", "mutant.sh"), patch, os.path.join(ROOT, "check"), pid, "quick"]
